@@ -534,6 +534,11 @@ func (g *Grammar) Alphabet() []rune {
 					if e.Class.IgnoreCase {
 						set[unicode.ToUpper(x)] = true
 						set[unicode.ToLower(x)] = true
+						for _, s := range foldSpecials {
+							if s != x && unicode.ToLower(s) == unicode.ToLower(x) {
+								set[s] = true
+							}
+						}
 					}
 				}
 				for _, rg := range e.Class.Ranges {
@@ -541,6 +546,14 @@ func (g *Grammar) Alphabet() []rune {
 					set[rg[1]] = true
 					if rg[1]-rg[0] > 1 {
 						set[(rg[0]+rg[1])/2] = true
+					}
+					if e.Class.IgnoreCase {
+						lo, hi := unicode.ToLower(rg[0]), unicode.ToLower(rg[1])
+						for _, s := range foldSpecials {
+							if l := unicode.ToLower(s); l >= lo && l <= hi {
+								set[s] = true
+							}
+						}
 					}
 				}
 				for _, u := range e.Class.UClasses {
